@@ -250,7 +250,7 @@ def main():
             "guard": "HDF4_VERIF_SIM",
             "enable": "build.sh configures /repo with cmake+ninja into /verif/.build/repo with -DHDF4_VERIF_SIM "
                       "-fsanitize=address -ftrivial-auto-var-init=pattern (static libs only) and links the engine with "
-                      "-Wl,--wrap=fopen,fclose,fread,fwrite,fseek,ftell,fflush,stat,remove,rename,getrlimit,getenv; "
+                      "-Wl,--wrap=fopen,fclose,fread,fwrite,fseek,ftell,fflush,ferror,stat,remove,rename,getrlimit,getenv; "
                       "the I/O seam itself needs no source hook",
             "baseline_off_cmd": "./tools/baseline_off.sh",
             "source_commits": hooks_commits,
